@@ -82,6 +82,11 @@ def gen(tier, seed, shard, nshards):
     for k in range(48 if tier == "quick" else 480):
         if k % nshards == shard:
             yield "dense-closure", {"p": 9 + k % 5, "dtype": ("int8", "uint8", "int16", "bool", "float32", "int64")[k % 6], "k": k}
+    # fans: one source, m middle nodes, one sink, m = 255 .. 512 - the number of two-step walks from source to sink is m, which wraps
+    # to 0 in 8-bit arithmetic exactly at 256 and 512
+    for fk, m in enumerate((255, 256, 257, 512, 256, 512)):
+        if fk % nshards == shard:
+            yield "fan-closure", {"m": m, "dtype": ("int8", "uint8", "int8", "uint8", "bool", "int16")[fk], "k": fk}
     # relabelled copies of the small PDAGs inside 9..13 nodes (labels >= 8 included)
     for c in _gc.iter_pdag_cases((3, 4), shard, nshards):
         if c["code"] % 2 == 0:
@@ -160,6 +165,40 @@ def judge(family, case, rec):
             GC.State.rate = 1
         return
 
+    if family == "fan-closure":
+        m = case["m"]
+        p = m + 2
+        rng = util.rng_for("C15fan", case["k"])
+        lab = [int(v) for v in rng.permutation(p)]
+        A = np.zeros((p, p), dtype=case["dtype"])
+        src, snk = lab[0], lab[1]
+        for v in lab[2:]:
+            A[src, v] = 1
+            A[v, snk] = 1
+        rec.case(family, case, True, key=("fan", case["k"]))
+        GC.State.rate = 99991        # only the outermost result is judged (hundreds of thousands of internal calls otherwise)
+        try:
+            ok, res = _call(rec, family, case, "transitive_closure", U.transitive_closure, A)
+            ok2, d_ = _call(rec, family, case, "descendants", U.descendants, src, A)
+            ok3, a_ = _call(rec, family, case, "ancestors", U.ancestors, snk, A)
+        finally:
+            GC.State.rate = 1
+        if ok:
+            R = np.asarray(res) != 0
+            want = np.zeros((p, p), dtype=bool)
+            want[src, :] = True
+            want[src, src] = False
+            for v in lab[2:]:
+                want[v, snk] = True
+            if R.shape != (p, p) or not (R == want).all():
+                rec.violation("C15:transitive_closure", family, case, "closure of a fan with %d middle nodes (%s) differs from directed reachability: source->sink %s"
+                              % (m, case["dtype"], bool(R[src, snk]) if R.shape == (p, p) else "?"))
+            rec.count("fan-closure:judged")
+        if ok2 and set(int(v) for v in d_) != set(range(p)):
+            rec.violation("C15:descendants", family, case, "descendants of the source of a fan with %d middle nodes: %d nodes, expected all %d" % (m, len(d_), p))
+        if ok3 and set(int(v) for v in a_) != set(range(p)) - {snk}:
+            rec.violation("C15:ancestors", family, case, "ancestors of the sink of a fan with %d middle nodes: %d nodes, expected %d" % (m, len(a_), p - 1))
+        return
     if family == "dense-closure":
         # complete / nearly complete DAGs: hundreds of directed paths between two nodes
         rng = util.rng_for("C15dc", case["k"])
